@@ -43,6 +43,11 @@ pub fn resolve_instruction(
     let maybe_chosen_encoding =
         maybe_encodings.as_ref().map(|e| e[0].1.clone());
 
+    // A match that could not be resolved yet may still turn out
+    // to be the smallest encoding in a later iteration.
+    let has_only_definite_matches =
+        matches.iter().all(|m| m.encoding.is_resolved_or_failed());
+
     // Reassign matches to satisfy the borrow checker
     let instr = defs.instructions.get_mut(ast_instr.item_ref.unwrap());
     instr.matches = matches;
@@ -64,7 +69,8 @@ pub fn resolve_instruction(
         if opts.optimize_statically_known &&
             ctx.is_first_iteration &&
             instr.encoding_statically_known &&
-            has_single_match
+            has_single_match &&
+            has_only_definite_matches
         {
             if opts.debug_iterations
             {
